@@ -76,6 +76,10 @@ CLAIMS = {
    "Decides purity by write-effect summaries computed bottom-up over the whole package (stores, map updates, append, copy, calls mapped through actual arguments, interface calls resolved over the package's implementers, callbacks resolved where the actual is a closure): each of ~320 read-only operations (encoders, Equals/Contains, Format/String, getters/predicates, IsNil/NotEmpty/DerefItem, To*/On* helpers, ItemsEqual, ItemOrderTimestamp; found by name family and signature) may write only memory it allocated itself or its designated output parameter, never memory reachable from receiver/arguments and never a package-level variable; the ~75 decode entry points write no package-level variable. Race-freedom of concurrent read-only use follows from absence of writes to shared memory. Seven positive controls (known writers) must be recognised on every run. NOT decided: writes inside dependencies beyond the reviewed summary table, aliasing created through callee stores into locals.",
    "Trusted: go/ssa, effects.go, the reviewed dependency summaries (extTable/extPurePrefixes); unreviewed externals are listed in the evidence as assumptions.",
    "interprocedural write-effect (purity) analysis over SSA with root-based aliasing", "3/C12"),
+ "C02": ("other",
+   "Decides the structural clauses: provenance of every byte string reaching an output buffer in the encoder closure (~200 sinks: constant / blessed escaper / nested MarshalJSON / numeric-instant-duration text with constant format; string fields, receivers' own bytes, %s-formatted strings and non-escaping helpers are findings where the raw bytes first enter; parameters resolved at call sites); the escaper's tables mark no control byte, quote or backslash safe and are consulted; member names are compile-time constant terms; no encoder emits one member name twice on one path; every field is written by the writer kind its Go type calls for, instants with the RFC 3339 layout; every encoder returns nil or an opened-and-closed buffer. ~1240 obligations. NOT decided: comma placement for all set/unset combinations, NaN/Inf, invalid UTF-8 representation.",
+   "Trusted: go/ssa, tables.go; encoding/json.Marshal and the copied escaper stringBytes escape per RFC 8259 given their tables; nested MarshalJSON outputs are valid inductively.",
+   "byte-provenance (taint) analysis of output-buffer sinks + constant-table and duplicate-name rules", "3/C02"),
 }
 
 NOT_YET = "check not yet built in this round (planned, see DESIGN.md section 3); not claimed until it runs clean"
